@@ -1037,25 +1037,97 @@ def r1_1(rep):
             t = strip(tail)
             if t.get("k") == "Field" and t.get("adt") == CR and is_new(t["base"]):
                 returned.add(t["f"])
+        consumed = root_consumers(prog, hm)
         for f, t in adt_fields(prog, CR).items():
             key = "merge:" + f
-            if f in merged:
-                rep.ok(key, "`self.%s` accumulates the nested result's `%s`" % (f, f), ib.loc(ib.root))
-            elif f in returned:
+            kind = "need flag" if NEED_TYPES.match(t) else "accumulator"
+            where = consumed.get(f)
+            if f in returned:
                 rep.ok(key, "returned to the caller, which wraps it into the `pub mod`", ib.loc(ib.root))
             elif f in ctor_args:
                 rep.ok(key, "shared with the nested result through the constructor", ib.loc(ib.root))
+            elif where and f in MODULE_SCOPED:
+                rep.bad(key, "`CodegenResult::%s` is declared module-scoped (%s) but it is consumed on the top-level result (%s)" %
+                        (f, MODULE_SCOPED[f], where[0]), ib.loc(ib.root))
+            elif where and f in merged:
+                rep.ok(key, "consumed on the top-level result (%s); `%s` folds the nested result's `%s` into the parent" %
+                       (where[0], short(ib.path), f), ib.loc(ib.root))
+            elif where:
+                rep.bad(key, "%s `CodegenResult::%s` (%s) is consumed on the top-level result (%s) but `%s` drops the nested "
+                             "module's value: with --enable-cxx-namespaces the root module itself is generated through `%s`, "
+                             "so whatever codegen records in `%s` never reaches the consumer" %
+                        (kind, f, t, where[0], short(ib.path), short(ib.path).split("::")[-1], f), ib.loc(ib.root))
             elif f in MODULE_SCOPED:
-                rep.ok(key, "module-scoped by design: " + MODULE_SCOPED[f], ib.loc(ib.root))
+                rep.ok(key, "never consumed on the top-level result; module-scoped by design: " + MODULE_SCOPED[f], ib.loc(ib.root))
+            elif f in merged:
+                rep.ok(key, "folded into the parent (no top-level consumer found)", ib.loc(ib.root))
             else:
-                kind = "need flag" if NEED_TYPES.match(t) else "accumulator"
-                rep.bad(key, "%s `CodegenResult::%s` (%s) of a nested module result is dropped by `%s`: with "
-                             "--enable-cxx-namespaces the root module itself is generated through `inner`, so whatever "
-                             "codegen records in `%s` never reaches the top-level result that is read after codegen" %
-                        (kind, f, t, short(ib.path), f), ib.loc(ib.root))
+                rep.bad(key, "%s `CodegenResult::%s` (%s) is neither folded into the parent by `%s`, nor consumed at the root, nor "
+                             "declared module-scoped in MODULE_SCOPED: classify the new field" % (kind, f, t, short(ib.path)),
+                        ib.loc(ib.root))
     rep.note("definers", {short(p): [hm.tpl_key(t) for t in ns] for p, ns in hm.definers.items()})
     rep.note("storage", {short(p): sorted("%s::%s" % s for s in st) for p, st in definer_storage.items()})
     rep.note("use sites", len(uses))
+
+
+def root_consumers(prog, hm):
+    """CodegenResult fields that are consumed on the TOP-LEVEL result: read under the root-module guard, or read
+    after generation by the function that creates the top-level result (directly, through a trivial accessor, or in
+    a callee that receives the result and is not itself a CodeGenerator).  field -> [description]"""
+    out = {}
+    getters = prog.getters()
+
+    def note(f, what):
+        out.setdefault(f, []).append(what)
+
+    def reads(b, within, what):
+        for n in b.walk(within):
+            if n["k"] == "Field" and n.get("adt") == CR:
+                note(n["f"], what)
+            elif n["k"] in ("Call", "MCall"):
+                g = getters.get(callee_of(n))
+                if g and g[0] == CR:
+                    note(g[1], what)
+
+    for p, b in prog.bodies.items():
+        is_cr_method = (b.fact.get("impl_self") or "").split("<")[0] == CR
+        # (1) under the root-module guard
+        for n in b.nodes:
+            if n["k"] == "Field" and n.get("adt") == CR and not is_cr_method:
+                atoms = qq.guard_atoms(b, n)
+                par = b.parent[n["_i"]]
+                cond_of_root = any(a[1] and "BindgenContext::root_module" in a[0] and "==" in a[0] for a in atoms)
+                if cond_of_root:
+                    note(n["f"], "read in the root-module branch of %s" % short(p))
+        # (2) the creator of the top-level result
+        if is_cr_method:
+            continue
+        news = [c for c in b.calls() if callee_of(c).split("::<")[0] == CR and callee_of(c).endswith("::new")]
+        for c in news:
+            par = b.parent[c["_i"]]
+            if par is None or par["k"] != "Let" or par["pat"].get("k") != "Bind":
+                continue
+            rid = par["pat"]["id"]
+            for n in b.nodes:
+                if n["k"] == "Field" and n.get("adt") == CR and strip(n["base"]).get("id") == rid and n["f"] != "items":
+                    note(n["f"], "read by %s after generation" % short(p))
+                elif n["k"] in ("Call", "MCall"):
+                    args = ([n["recv"]] if n["k"] == "MCall" else []) + n["args"]
+                    if not any(strip(a).get("k") == "Local" and strip(a).get("id") == rid for a in args):
+                        continue
+                    c2 = callee_of(n)
+                    g = getters.get(c2)
+                    if g and g[0] == CR:
+                        note(g[1], "read by %s after generation" % short(p))
+                        continue
+                    if n.get("trait") == "codegen::CodeGenerator" or c2.endswith("CodeGenerator>::codegen") or \
+                            (n.get("callee") or "").endswith("CodeGenerator::codegen"):
+                        continue  # generation itself
+                    cb = prog.bodies.get(c2)
+                    if cb is not None and (cb.fact.get("impl_self") or "").split("<")[0] != CR:
+                        reads(cb, cb.root, "read by %s, called by %s after generation" % (short(c2), short(p)))
+    out.pop("items", None)
+    return out
 
 
 def _enclosing_closure(b, n):
@@ -1499,10 +1571,7 @@ def r1_4(rep):
         for b, c in qs:
             fn = short(b.path)
             # the query guards an early exit
-            par = b.parent[c["_i"]]
-            while par is not None and par["k"] in ("Unary", "AddrOf"):
-                par = b.parent[par["_i"]]
-            exits = par is not None and par["k"] == "If" and b.role[c["_i"]] == "cond" and b.diverges(par["then"]) and "else" not in par
+            exits = _guards_early_exit(b, c)
             rep.check(bool(exits), "%s:seen-exits@%s" % (what, fn),
                       "`if result.%s(name) { return }` skips a second declaration of the same %s" % (query, what), b.loc(c))
             # followed by the record of the same key, unconditionally after the check
@@ -1604,6 +1673,26 @@ def r1_4(rep):
             loops = [n for n in b.nodes if n["k"] in ("While", "Loop") and any(x is c for c in contains for x in b.walk(n))]
             rep.check(bool(loops), "method:rename-loop@%s" % fn, "a taken name is renamed in a loop that re-tests the candidate",
                       b.loc(b.root))
+
+
+def _guards_early_exit(b, c):
+    """the bool result of call c is the condition of an `if .. { <diverges> }` without else — directly, or through an
+    immutable local it is bound to."""
+    def cond_of_exit(n):
+        par = b.parent[n["_i"]]
+        child = n
+        while par is not None and par["k"] in ("AddrOf", "Cast") or (par is not None and par["k"] == "Block" and not par.get("stmts")):
+            child, par = par, b.parent[par["_i"]]
+        return par is not None and par["k"] == "If" and par["cond"] is child and b.diverges(par["then"]) and "else" not in par
+
+    if cond_of_exit(c):
+        return True
+    par = b.parent[c["_i"]]
+    if par is not None and par["k"] == "Let" and par["pat"].get("k") == "Bind" and par["pat"]["id"] not in b.local_assigned \
+            and par["pat"]["id"] not in b.local_mut:
+        lid = par["pat"]["id"]
+        return any(n["k"] == "Local" and n["id"] == lid and cond_of_exit(n) for n in b.nodes)
+    return False
 
 
 def _flows_from(b, e, lid, depth=0):
